@@ -14,7 +14,7 @@ import (
 )
 
 // Script executed against the real code; every step is logged as one trace event (see spec/Trace_Rfc8888.tla).
-// Clock values are millisecond offsets from time.Unix(Base, 0).
+// Clock values are microsecond offsets from time.Unix(Base, 0).
 type vfCcfbScript struct {
 	Level string `json:"level"` // "rec": exported Recorder, "icpt": SenderInterceptor with SenderTicker/SenderNow
 	Base  int64  `json:"base"`  // unix seconds of clock offset 0
@@ -31,8 +31,8 @@ type vfCcfbScript struct {
 	} `json:"steps"`
 }
 
-func vfAt(base int64, ms int64) time.Time {
-	return time.Unix(base, 0).Add(time.Duration(ms) * time.Millisecond)
+func vfAt(base int64, us int64) time.Time {
+	return time.Unix(base, 0).Add(time.Duration(us) * time.Microsecond)
 }
 
 // vfReportEvent records what a report says, field by field; nothing is recomputed here.
